@@ -5,6 +5,7 @@ sentinel [-1] / -1 / "err:<Type>" so that they can never equal an expected value
 """
 
 from ..common import frame
+from . import history
 
 BAD = [-1]
 
@@ -48,6 +49,7 @@ def obs_c01(case):
     from pyubx2 import UBXMessage
 
     f = bytes.fromhex(case["f"])
+    history.run(case.get("hist"))
     m, out = parse_call(f, case["mode"], case["pbf"], case["validate"])
     ev = {"prop": "C01", "kind": "parse", "f": list(f), "out": out, "mode": case["mode"], "pbf": case["pbf"],
           "validate": case["validate"], "ser": BAD, "cls": BAD, "mid": BAD, "length": -1, "payload": BAD, "reprser": BAD}
@@ -84,6 +86,10 @@ def attrs_digest(m):
 
 def obs_c05_parse(case):
     f = bytes.fromhex(case["f"])
+    history.run(case.get("hist"))
+    if case.get("lenient_first"):
+        # the verdict under VALCKSUM must not depend on an earlier lenient (VALNONE) parse of the same bytes
+        parse_call(f, case.get("mode", 0), 1, 0)
     m, out = parse_call(f, case.get("mode", 0), 1, 1)
     return {"prop": "C05", "kind": "parse", "f": list(f), "out": out}
 
